@@ -1506,12 +1506,16 @@ class SpaceManager(SharedSpaceOperations):
         for subspace in self._get_subs(space):
             is_relative = False
             if name in subspace.own_refs:
-                break
+                subref = subspace.own_refs[name]
+                if subref.is_derived():     # may now derive from the new ref
+                    subref.on_inherit(self, subref.defined_bases)
+                continue
+            subvalue = value
             if isinstance(value, Interface) and value._is_valid():
                 if refmode == "auto" or refmode == "relative":
-                    is_relative, value = self.get_relative_interface(
+                    is_relative, subvalue = self.get_relative_interface(
                         subspace, space.own_refs[name])
-            ref = subspace.on_create_ref(name, value, is_derived=True,
+            ref = subspace.on_create_ref(name, subvalue, is_derived=True,
                                    refmode=refmode)
             ref.is_relative = is_relative
 
@@ -1533,15 +1537,16 @@ class SpaceManager(SharedSpaceOperations):
             is_relative = False
             subref = subspace.own_refs[name]
             if subref.is_defined():
-                break
+                continue
             elif subref.defined_bases[0] is not space.own_refs[name]:
-                break
+                continue
+            subvalue = value
             if isinstance(value, Interface) and value._is_valid():
                 if (refmode == "auto"
                         or refmode == "relative"):
-                    is_relative, value = self.get_relative_interface(
+                    is_relative, subvalue = self.get_relative_interface(
                         subspace, space.own_refs[name])
-            ref = subspace.on_change_ref(name, value,
+            ref = subspace.on_change_ref(name, subvalue,
                                          is_derived=True, refmode=refmode,
                                          is_relative=is_relative)
             ref.is_relative = is_relative
